@@ -233,3 +233,37 @@ Proof.
   { intros k Hk. do 2 (destruct k as [|k]; [vm_compute; split; [repeat (constructor; try reflexivity) | split; [reflexivity | discriminate]]|]). lia. }
   repeat split; reflexivity.
 Qed.
+
+(* =========================================================================================== *)
+(** * LouvainEmbedding's closed form as REGENERATED FROM sknetwork/embedding/louvain_embedding.py
+
+    [src_louvain_embedding] / [src_louvain_embedding_col] (Gen/NpLouvainEmbedding.v) are the values that
+    LouvainEmbedding.fit assigns to [embedding_] and [embedding_col_] (after reindex_labels), translated on every run by
+    harness/translators/npvec.py into the array language of Model/NpVec.v.  Over R, for EVERY matrix (index function) and
+    every label vector they equal the closed form: entry (i, c) is the share of the weight of row i (resp. column j) that
+    goes to cluster c; on a non-negative matrix with labels in range every row is a probability vector (or null). *)
+From SKN Require Import Model.NpExpr Model.NpVec Gen.NpLouvainEmbedding Proofs.NpVecProofs Proofs.NpModularityProofs
+                        Proofs.NpSecondaryProofs Proofs.NpLouvainEmbeddingProofs.
+From Coq Require Import Reals Lra.
+Local Open Scope R_scope.
+
+Theorem source_louvain_embedding_closed_form (n1 n2 : nat) (B : nat -> nat -> R) (l : list Z) :
+  List.length l = n2 ->
+  exists f, rvdenote (env_le n1 n2 B l) src_louvain_embedding = Some (WM n1 (nlab l) f) /\
+            forall i c, f i c = le_closed n2 B l i c.
+Proof. exact (NpLouvainEmbeddingProofs.source_louvain_embedding_closed_form n1 n2 B l). Qed.
+Print Assumptions source_louvain_embedding_closed_form.
+
+Theorem source_louvain_embedding_col_closed_form (n1 n2 : nat) (B : nat -> nat -> R) (l : list Z) :
+  List.length l = n1 ->
+  exists f, rvdenote (env_le_col n1 n2 B l) src_louvain_embedding_col = Some (WM n2 (nlab l) f) /\
+            forall j c, f j c = le_closed n1 (fun j i => B i j) l j c.
+Proof. exact (NpLouvainEmbeddingProofs.source_louvain_embedding_col_closed_form n1 n2 B l). Qed.
+Print Assumptions source_louvain_embedding_col_closed_form.
+
+Theorem source_louvain_embedding_rows (n1 n2 : nat) (B : nat -> nat -> R) (l : list Z) (i : nat) :
+  labels_ok n2 l -> nonneg_rect n1 n2 B -> (i < n1)%nat ->
+  (forall c, (c < nlab l)%nat -> 0 <= le_closed n2 B l i c) /\
+  (0 < lsum (seq 0 n2) (B i) -> lsum (seq 0 (nlab l)) (le_closed n2 B l i) = 1).
+Proof. exact (NpLouvainEmbeddingProofs.source_louvain_embedding_rows n1 n2 B l i). Qed.
+Print Assumptions source_louvain_embedding_rows.
